@@ -107,7 +107,8 @@ def calc_j2x(m: theory.Theory, x: float, eta: float, Q2: float):
         Q2: final evolution scale
 
     Returns:
-        wce[s,k,j]: s in range(npwmax), k in range(npts), j in [Q,G,NSP]
+        wce[s,k,i,j]: s in range(npwmax), k in range(npts),
+        i (evolved flavor) and j (input flavor) in [Q,G,NSP]
 
     Todo:
         Implement general (eta != x) j to x transform.
@@ -137,8 +138,9 @@ def calc_j2x(m: theory.Theory, x: float, eta: float, Q2: float):
         evola_ns = evola_ns.reshape((evola_ns.shape[0], 2, 1, 1))
         evola = np.block([[evola_si, zero_right],               # 3x3
                           [zero_down, evola_ns]])
-        # take just appropriate LO or NLO part
-        evola = evola[:, m.p, :, :]
-        # combine coef. with evolution operator
-        wce.append(np.einsum('ki, kij->kj', wc, evola))
+        # LO + alpha_s * NLO part of evolution operator (cf. p_mat in calc_wce)
+        asmuf2 = qcd.as2pf(m.p, m.nf, Q2/m.rf2, m.asp[m.p], m.r20)
+        evola = evola[:, 0, :, :] + asmuf2 * evola[:, 1, :, :]
+        # coef. of evolved flavor i times evolution operator from input flavor j
+        wce.append(np.einsum('ki, kij->kij', wc, evola))
     return np.stack(wce, axis=0)  # stack PWs
